@@ -239,7 +239,9 @@ def self_check_memory(ck, r, st, which, a1, a2, loc, sub, mval, own, mv, widenin
             def vec_store_on_base(mp):
                 # a store through a vector-valued pointer one of whose alternatives is this location's base:
                 # the map itself treats it as written at every alternative, merge as one of them
-                return any(l._is_ptr and l.base._is_vec and l is not loc and any(str(x) == str(loc.base) for x in l.base.l) for l, _ in mp)
+                # (alternatives that are not plain registers, or a constant base, may alias it under the state)
+                return any(l._is_ptr and l.base._is_vec and l is not loc and
+                           any(str(x) == str(loc.base) or not x._is_reg or not loc.base._is_reg for x in l.base.l) for l, _ in mp)
             if vec_store_on_base(a1) or vec_store_on_base(a2):
                 ck.count("merge.oracle.memory.vector-pointer-store-may-alias-not-judged")
                 return
@@ -260,8 +262,32 @@ def self_check_memory(ck, r, st, which, a1, a2, loc, sub, mval, own, mv, widenin
                 stores2 = any(l._is_ptr for l, _ in a2)
                 if stores1 and stores2:
                     # merge replays the stores location by location, the first map's locations first:
-                    # overlapping stores of the two maps may be re-ordered
-                    cls.append("both-maps-store")
+                    # overlapping stores of the two maps may be re-ordered.  The shape of the overlap is
+                    # part of the signature, so that a known failure of one shape does not hide another
+                    def ivs(mp):
+                        out = []
+                        for l, v in mp:
+                            if l._is_ptr and str(l.base) == str(loc.base) and not l.base._is_vec:
+                                out.append((l.disp, l.disp + v.size // 8))
+                        return out
+                    def ov(x, y):
+                        return x[0] < y[1] and y[0] < x[1]
+                    i1, i2 = ivs(a1), ivs(a2)
+                    selfov = any(ov(x, y) for I in (i1, i2) for k, x in enumerate(I) for y in I[k + 1:])
+                    cross = [(x, y) for x in i1 for y in i2 if ov(x, y)]
+                    if selfov:
+                        shape = "a-map-overlaps-its-own-stores"
+                    elif not cross:
+                        shape = "disjoint"
+                    elif all(x == y for x, y in cross):
+                        shape = "same-location"
+                    elif all(x[0] == y[0] for x, y in cross):
+                        shape = "same-start"
+                    elif all((x[0] <= y[0] and y[1] <= x[1]) or (y[0] <= x[0] and x[1] <= y[1]) for x, y in cross):
+                        shape = "contained"
+                    else:
+                        shape = "straddling"
+                    cls.append("both-maps-store:" + shape)
                 elif any(l._is_ptr and str(l) != str(loc) for mp in (a1, a2) for l, _ in mp):
                     cls.append("one-map-stores")
             ck.report("C19:merge:memory-not-covered:" + ("+".join(cls) or "plain"), "merge(m1,m2)[%s] = %s does not cover map %d's value %#x" % (sub, mv, which, want),
@@ -358,6 +384,41 @@ def main(tier):
                 mB[y] = vec([REGS[0], REGS[1]])
                 mB[mem(y, 32, disp=d)] = rnd_expr(r, 0, 32)
                 m1, m2 = (mA, mB) if r.random() < 0.5 else (mB, mA)
+            elif pat < 0.42:
+                # the same writes on both paths, under different path conditions (as two branches that
+                # rejoin): the conditions are attached the way the engine attaches them
+                body = []
+                x = r.choice(REGS[2:])
+                for l in r.sample(REGS + FLAGS, r.randint(1, 3)):
+                    body.append((l, rnd_expr(r, r.choice([0, 1, 2])) + (x if r.random() < 0.7 else 0)))
+                if r.random() < 0.6:
+                    body.append((mem(r.choice(REGS[:2]), 32, disp=r.choice([0, 4])), rnd_expr(r, 1, 32) ^ x))
+                mA, mB = mapper(), mapper()
+                for l, v in body:
+                    try:
+                        mA[l] = v
+                        mB[l] = v
+                    except Exception:
+                        pass
+                c1, c2 = r.sample([0, 3, 7, 0x1000, 0xffffffff], 2)
+                mA.conds = [x == cst(c1, 32)] if r.random() < 0.8 else [x > cst(5, 32)]
+                mB.conds = [x == cst(c2, 32)] if r.random() < 0.8 else [x <= cst(5, 32)]
+                m1, m2 = mA, mB
+            elif pat < 0.54:
+                # stores through the same base that straddle one another (start inside the other map's
+                # store and end beyond it), and the other inclusion / adjacency shapes
+                mA, mB = mapper(), mapper()
+                b = r.choice(REGS[:2])
+                sa, sb = r.choice([8, 16, 32]), r.choice([8, 16, 32])
+                da = r.choice([0, 2, 4])
+                db = da + r.choice([-1, 1, 1, 2, 3, -2, 0])
+                if db < 0:
+                    db = da + 1
+                mA[mem(b, sa, disp=da)] = rnd_expr(r, 0, sa)
+                mB[mem(b, sb, disp=db)] = rnd_expr(r, 0, sb)
+                if r.random() < 0.3:
+                    mB[r.choice(REGS[2:4])] = rnd_expr(r, 1)
+                m1, m2 = (mA, mB) if r.random() < 0.5 else (mB, mA)
             try:
                 mm = merge(m1, m2, widening=widening)
             except Exception as ex:
@@ -377,12 +438,21 @@ def main(tier):
             if regs_only(got_locs) != regs_only(written):
                 ck.report("C19:merge:locations", "merge writes %s, the two maps write %s" % (sorted(got_locs), sorted(written)), "oracle",
                           "Amoco.Merge.Props.merge_keys", case=where, real=sorted(got_locs), expected=sorted(written))
-            for _ in range(4):
+            for k4 in range(4):
                 st, _ = concrete(r)
+                if k4 < 2:
+                    # steer the state into the path of one of the maps (register == constant conditions)
+                    for c in (m1.conds, m2.conds)[k4]:
+                        if getattr(c, "_is_eqn", False) and c.op.symbol == "==" and c.l._is_reg and c.r._is_cst:
+                            st[c.l] = c.r
                 for which, a in ((1, a1), (2, a2)):
                     if not cond_holds(st, a):
                         continue
-                    for loc, mval in mm:
+                    # every location of the merged map, and every memory location the map itself wrote
+                    # (a store that merge dropped is read back from the merged map all the same)
+                    seen = set(str(l) + "/%d" % v.size for l, v in mm if l._is_ptr)
+                    extra = [(l, v) for l, v in a if l._is_ptr and (str(l) + "/%d" % v.size) not in seen]
+                    for loc, mval in list(mm) + extra:
                         if loc._is_reg and (loc.etype & regtype.FLAGS) and not a.has(loc):
                             continue
                         if loc._is_ptr:
